@@ -15,7 +15,7 @@
 (*    vals  : values offered for identifiers,                              *)
 (*    pos   : positions offered to add/connect]                            *)
 (***************************************************************************)
-EXTENDS Props
+EXTENDS Listener
 
 Kinds == {"N", "L", "D", "P", "C", "I", "Q", "W"}
 On(sc, f) == f \in sc.ops
@@ -23,8 +23,11 @@ Room(s, sc, kind) == CountOf(s, kind) < sc.max[kind]
 NamesFor(sc, kind) == IF kind \in FirstClass THEN sc.names ELSE {NoVal}
 
 Perms(q) == {p \in [DOMAIN q -> SeqSet(q)] : \A a, b \in DOMAIN q : a # b => p[a] # p[b]}
-BadSeqs(q, extra) ==      \* non-permutations: one dropped, one duplicated, a stranger added
+BadSeqs(q, extra) ==      \* non-permutations: one dropped, one duplicated, a stranger added, and - same length -
+                          \* one member written over another member or over by a stranger
     (IF q = <<>> THEN {} ELSE {Tail(q), Append(q, q[1])}) \cup {Append(q, e) : e \in extra}
+    \cup (IF Len(q) >= 2 THEN {[q EXCEPT ![2] = q[1]], [q EXCEPT ![1] = q[Len(q)]]} ELSE {})
+    \cup (IF q = <<>> THEN {} ELSE {[q EXCEPT ![Len(q)] = e] : e \in extra})
 FirstOf(q) == IF q = <<>> THEN {} ELSE {q[1]}
 SmallSubsets(S) == {T \in SUBSET S : T # {} /\ Cardinality(T) <= 2}
 
